@@ -16,7 +16,7 @@ RULE = ("bounded-exhaustive enumeration (E1): payload length x packet counter x 
         "library (direct seam and through the simulated wire); every single-bit flip of reference-built responses "
         "for all 16 padding residues at the packet seam (every other flip right after the authentic packet was accepted by the same "
         "protocol object) and through LAN.send; payloads built from the protocol's own literals (ERROR, 8370, 5A5A, pad bytes) alone and "
-        "at either end of ordinary data. A case is (part,key,length,counter[,bit]); "
+        "at either end of ordinary data; runs of up to 40 tampered responses on one protocol object followed by genuine traffic. A case is (part,key,length,counter[,bit]); "
         "non-trivial = payload length > 0 or tamper case")
 ASSUMPTIONS = [
     "AES single-block primitive of pycryptodome and hashlib SHA-256/MD5 are correct (reference codec does its own CBC chaining, padding and framing)",
@@ -48,6 +48,8 @@ def shards(tier):
         out.append(("rekey", k, 0, 0))
     for r in range(16):
         out.append(("tamperB", r % nk, r, 0))
+    for k in range(nk):
+        out.append(("streak", k, 0, 0))
     for r in (range(16) if tier == "thorough" else (0, 6, 10, 15)):
         for part in range(4):
             out.append(("tamperA", (r + 1) % nk, r, part))
@@ -258,6 +260,33 @@ def run_shard(shard, tier) -> Stats:
                                  {"part": part, "residue": r, "bit": bit}, "ProtocolError", outcome,
                                  f"returned={got.hex() if got else None}")
                 st.ev((part, r, bit), outcome, True)
+        elif part == "streak":
+            # repetition bound: runs of 1..40 tampered responses on one protocol object, each run followed by a genuine
+            # response and a request, which must still work under the same session key
+            payload = al.payload("c05k", 37, 3)
+            for run in (1, 2, 5, 8, 9, 16, 40):
+                for j in range(run):
+                    resp = bytearray(rc.v3_build_encrypted(sess.sk, j, payload, rc.T_ENC_RESP))
+                    bit = 64 + (j * 53 + run * 7) % ((len(resp) - 8) * 8)
+                    resp[bit // 8] ^= 1 << (bit % 8)
+                    try:
+                        with memoryview(bytes(resp)) as mv:
+                            sess.proto._process_packet(mv)
+                        outcome = "returned"
+                    except ProtocolError:
+                        outcome = "ProtocolError"
+                    except Exception as e:  # noqa: BLE001
+                        outcome = type(e).__name__
+                    if outcome != "ProtocolError":
+                        st.violation(f"streak: tampered response {j + 1 if j < 2 else 'n'} of a run -> {outcome}", {"part": part, "key": kidx, "run": run, "index": j},
+                                     "ProtocolError", outcome)
+                    st.ev((part, kidx, run, j), outcome, True)
+                _check_response(st, f"after-streak{run}", kidx, sess, len(payload), 5, payload)
+                try:
+                    pkt = sess.proto._encode_encrypted_request(6, payload)
+                    _check_request(st, f"after-streak{run}", kidx, sess.sk, len(payload), 6, pkt, payload)
+                except Exception as e:  # noqa: BLE001
+                    st.violation(f"request after a run of tampered responses: encode raised {type(e).__name__}", {"part": part, "key": kidx, "run": run}, "a packet", str(e)[:80])
         elif part == "tamperA":
             _tamper_wire(st, sess, a, b)
     finally:
